@@ -1,8 +1,1565 @@
-//! stub — to be implemented
-use crate::common::{Ctx, Report};
+//! C01 — proxied HTTP bodies arrive complete, unmodified and in order.
+//!
+//! Worker lab. Per cell: one real sozu worker (HTTP listener + HTTPS listener), scripted backends
+//! and scripted clients. Bodies are self-describing (byte i of message m is `keystream_byte(m,i)`),
+//! receivers verify incrementally with strict decoders and report the first bad offset.
+//! Oracles (all at the receiver): (1) byte equality, (2) clean termination whenever the sender
+//! ended cleanly, (3) progress decided on bytes (a stalled transfer is re-run alone before it may
+//! count). All four sockets of a transfer are driven by random I/O programs (segmentation,
+//! pauses, small SO_RCVBUF); sozu's own socket buffers are shrunk through the verif knobs in part
+//! of the cells. The hooks' I/O counters prove which would-block / partial-write paths were taken.
 
-pub fn run(_ctx: &Ctx) -> Report {
-    let mut rep = Report::new("exploration", "not implemented");
-    rep.broken("check not implemented yet");
+mod pump;
+mod wire;
+mod h1run;
+mod h2run;
+
+use std::{
+    collections::{BTreeMap, HashMap, HashSet},
+    net::{Ipv4Addr, SocketAddr},
+    sync::{
+        Arc, Condvar, Mutex,
+        atomic::{AtomicBool, AtomicU64, Ordering},
+    },
+    time::{Duration, Instant},
+};
+
+use serde_json::{Value, json};
+use sozu_command_lib::proto::command::Cluster;
+
+use crate::{
+    common::{Ctx, Report, Rng, par_cases, rng::fnv1a},
+    lab::{self, Worker, WorkerOpts},
+    peers::{BackendServer, IoProgram},
+};
+
+use wire::{H2End, H2Shape, Mismatch, ReqFraming, RespFraming};
+
+// ---------------------------------------------------------------------------------------------
+// vocabulary
+
+#[derive(Clone, Copy, Debug, PartialEq, Eq, Hash, PartialOrd, Ord)]
+pub(crate) enum Front {
+    H1Tcp,
+    H1Tls,
+    H2Tls,
+}
+
+#[derive(Clone, Copy, Debug, PartialEq, Eq, Hash, PartialOrd, Ord)]
+pub(crate) enum Back {
+    H1,
+    H2c,
+}
+
+pub(crate) fn pair_name(f: Front, b: Back) -> &'static str {
+    match (f, b) {
+        (Front::H1Tcp, Back::H1) => "h1-h1",
+        (Front::H1Tls, Back::H1) => "h1tls-h1",
+        (Front::H2Tls, Back::H1) => "h2-h1",
+        (Front::H1Tcp, Back::H2c) => "h1-h2c",
+        (Front::H1Tls, Back::H2c) => "h1tls-h2c",
+        (Front::H2Tls, Back::H2c) => "h2-h2c",
+    }
+}
+
+#[derive(Clone, Copy, Debug, PartialEq, Eq, Hash)]
+pub(crate) enum Mode {
+    /// the backend answers after it has read the whole request
+    Normal,
+    /// the backend starts its response as soon as it has the request head and keeps reading the
+    /// request meanwhile (H1: only the response is judged; H2: both directions are judged)
+    Early,
+}
+
+/// One request/response exchange.
+#[derive(Clone, Debug)]
+pub(crate) struct Xfer {
+    /// registry key, unique in the process: (case << 24) | n
+    pub key: u64,
+    pub req_msg: u64,
+    pub resp_msg: u64,
+    pub req_size: u64,
+    pub resp_size: u64,
+    pub req_framing: ReqFraming,
+    pub resp_framing: RespFraming,
+    pub mode: Mode,
+    /// which backend (index into the cell's backend list)
+    pub backend: usize,
+    /// filler header length (moves every later byte relative to sozu's buffer boundaries)
+    pub req_fill: usize,
+    pub resp_fill: usize,
+    /// the client asks for `Connection: close`
+    pub client_close: bool,
+    /// how the backend paces this exchange (buffer sizes come from its listener)
+    pub backend_prog: IoProgram,
+}
+
+impl Xfer {
+    pub fn direction(&self) -> &'static str {
+        match (self.req_size > 0 || self.req_framing.has_body(), self.resp_size > 0) {
+            _ if self.mode == Mode::Early => "early",
+            (true, true) => "both",
+            (true, false) => "upload",
+            (false, _) => "download",
+        }
+    }
+    pub fn json(&self) -> Value {
+        json!({"key": self.key, "req_msg": self.req_msg, "resp_msg": self.resp_msg,
+            "req_size": self.req_size, "resp_size": self.resp_size,
+            "req_framing": self.req_framing.describe(), "resp_framing": self.resp_framing.describe(),
+            "mode": format!("{:?}", self.mode), "backend": self.backend,
+            "req_fill": self.req_fill, "resp_fill": self.resp_fill, "client_close": self.client_close,
+            "backend_prog": self.backend_prog.describe()})
+    }
+}
+
+/// One client connection: 1..8 sequential exchanges (H1) or 1..32 concurrent streams (H2).
+#[derive(Clone, Debug)]
+pub(crate) struct ConnPlan {
+    pub idx: usize,
+    pub front: Front,
+    pub prog: IoProgram,
+    pub xfers: Vec<Xfer>,
+    /// per-connection randomness of the runner (H2 settings, stream start order)
+    pub seed: u64,
+    /// H2 connections: the framing theme shared by all streams ("" on H1 connections)
+    pub theme: String,
+}
+
+/// What a receiver saw of one message.
+#[derive(Clone, Debug, Default)]
+pub(crate) struct SideObs {
+    pub head_seen: bool,
+    pub bytes: u64,
+    pub mismatch: Option<Mismatch>,
+    pub ended: bool,
+    /// (kind, detail); kind in malformed | truncated | reset | tls_unclean_eof | rst_stream | goaway
+    pub error: Option<(String, String)>,
+    pub trailers: Option<usize>,
+    /// framing as seen by the receiver
+    pub recv_framing: String,
+}
+
+impl SideObs {
+    pub fn json(&self) -> Value {
+        json!({"head_seen": self.head_seen, "bytes": self.bytes, "ended": self.ended,
+            "error": self.error.as_ref().map(|(k, d)| format!("{k}: {d}")),
+            "mismatch": self.mismatch.as_ref().map(|m| m.json()),
+            "trailers": self.trailers, "recv_framing": self.recv_framing})
+    }
+}
+
+/// The backend's view of one exchange.
+#[derive(Clone, Debug, Default)]
+pub(crate) struct BackObs {
+    pub conn_idx: usize,
+    pub nth_on_conn: usize,
+    pub seen: u32,
+    pub req: SideObs,
+    pub resp_started: bool,
+    pub resp_bytes_written: u64,
+    /// every response byte was handed to the kernel (and FIN sent for close-delimited bodies)
+    pub resp_sent_complete: bool,
+    pub resp_error: Option<String>,
+    /// the (h2c) backend answered a body-less request on its HEADERS, without waiting for END_STREAM
+    pub eager: bool,
+    /// after a closing response: sozu closed the backend connection too (it has read everything)
+    pub peer_closed_after_resp: bool,
+    /// bytes moved on the backend socket for this exchange (progress is decided on bytes)
+    pub activity: u64,
+}
+
+/// The client's view of one exchange.
+#[derive(Clone, Debug, Default)]
+pub(crate) struct ClientObs {
+    pub attempted: bool,
+    pub req_bytes_written: u64,
+    pub req_sent_complete: bool,
+    pub send_error: Option<String>,
+    pub status: Option<u16>,
+    pub from_backend: bool,
+    pub resp: SideObs,
+    pub stalled: bool,
+    /// the failure recorded in `resp.error` hit the whole H2 connection (GOAWAY with an error,
+    /// connection closed / reset, undecodable frames), not this stream alone
+    pub conn_level: bool,
+    pub only_end_missing: bool,
+    pub stall_silence_s: u64,
+    pub watchdog_cap: bool,
+    /// sozu's socket counters over this exchange (single-lane cells only):
+    /// (session_tcp write wouldblock, session_tcp partial, rustls write wouldblock, rustls partial)
+    pub io_delta: Option<[u64; 4]>,
+    pub garbage_after: Option<String>,
+    pub note: Option<String>,
+    pub elapsed_ms: u64,
+}
+
+pub(crate) struct CellShared {
+    pub case: u64,
+    pub specs: Mutex<HashMap<u64, Arc<Xfer>>>,
+    pub back: Mutex<HashMap<u64, BackObs>>,
+    pub cond: Condvar,
+    pub progress: AtomicU64,
+    pub stop: AtomicBool,
+    pub backend_conns: AtomicU64,
+    pub backend_reuse: AtomicU64,
+    pub h2_max_concurrent_back: AtomicU64,
+}
+
+impl CellShared {
+    pub fn new(case: u64) -> Arc<CellShared> {
+        Arc::new(CellShared {
+            case,
+            specs: Mutex::new(HashMap::new()),
+            back: Mutex::new(HashMap::new()),
+            cond: Condvar::new(),
+            progress: AtomicU64::new(0),
+            stop: AtomicBool::new(false),
+            backend_conns: AtomicU64::new(0),
+            backend_reuse: AtomicU64::new(0),
+            h2_max_concurrent_back: AtomicU64::new(0),
+        })
+    }
+    pub fn spec(&self, key: u64) -> Option<Arc<Xfer>> {
+        self.specs.lock().unwrap().get(&key).cloned()
+    }
+    pub fn with_back<R>(&self, key: u64, f: impl FnOnce(&mut BackObs) -> R) -> R {
+        let mut g = self.back.lock().unwrap();
+        let r = f(g.entry(key).or_default());
+        drop(g);
+        self.cond.notify_all();
+        r
+    }
+    pub fn back_obs(&self, key: u64) -> Option<BackObs> {
+        self.back.lock().unwrap().get(&key).cloned()
+    }
+    /// wait until `pred` holds for the backend's view of `key` (or the timeout elapses)
+    pub fn wait_back(&self, key: u64, timeout: Duration, pred: impl Fn(&BackObs) -> bool) -> Option<BackObs> {
+        let deadline = Instant::now() + timeout;
+        let mut g = self.back.lock().unwrap();
+        loop {
+            if let Some(o) = g.get(&key) {
+                if pred(o) {
+                    return Some(o.clone());
+                }
+            }
+            let left = deadline.saturating_duration_since(Instant::now());
+            if left.is_zero() {
+                return g.get(&key).cloned();
+            }
+            g = self.cond.wait_timeout(g, left.min(Duration::from_millis(50))).unwrap().0;
+        }
+    }
+    pub fn tick(&self, n: u64) {
+        self.progress.fetch_add(n.max(1), Ordering::Relaxed);
+    }
+}
+
+#[derive(Clone, Debug)]
+pub(crate) struct CellCfg {
+    pub tight: bool,
+    pub buffer_size: u64,
+    pub min_buffers: u64,
+    pub max_buffers: u64,
+    pub knobs: Vec<(String, i64)>,
+    pub lanes: usize,
+    /// backends: (protocol, listener I/O program)
+    pub backends: Vec<(Back, IoProgram)>,
+}
+
+impl CellCfg {
+    fn json(&self) -> Value {
+        json!({"tight": self.tight, "buffer_size": self.buffer_size, "min_buffers": self.min_buffers,
+            "max_buffers": self.max_buffers, "knobs": self.knobs, "lanes": self.lanes,
+            "backends": self.backends.iter().map(|(b, p)| format!("{b:?} {}", p.describe())).collect::<Vec<_>>()})
+    }
+}
+
+pub(crate) fn host_of(backend: usize) -> String {
+    format!("b{backend}.test")
+}
+
+pub(crate) const WATCHDOG_NO_PROGRESS: Duration = Duration::from_secs(20);
+/// when every body byte has arrived, the sender has finished (FIN handed to the kernel) and only
+/// the end-of-message signal is missing, a shorter silence is enough to call the case a stall
+/// candidate (it is still re-run alone before it counts)
+pub(crate) const WATCHDOG_END_ONLY: Duration = Duration::from_secs(2);
+/// when every sender of the unfinished direction(s) has handed all its bytes to the kernel and no
+/// byte moves on any of the four sockets, this silence makes a stall candidate
+pub(crate) const WATCHDOG_SENDER_DONE: Duration = Duration::from_secs(3);
+
+pub(crate) fn overall_cap(x: &Xfer) -> Duration {
+    // 10x the time the transfer takes at 1 MB/s, at least 60 s
+    let bytes = x.req_size + x.resp_size;
+    Duration::from_secs((bytes / 100_000).max(60))
+}
+
+// ---------------------------------------------------------------------------------------------
+// generators
+
+const CHUNK_SIZES: &[usize] = &[1, 2, 7, 9, 4096, 16383, 16384, 16385, 0 /* = size itself */];
+
+fn named_sizes(bs: u64) -> Vec<u64> {
+    let mut v: Vec<u64> = vec![0, 1, 2, bs - 2, bs - 1, bs, bs + 1, bs + 2, 16393, 32767, 32768, 32769, 65534, 65535, 65536, 65537];
+    for d in 0..=9u64 {
+        v.push(16384 - d);
+        v.push(16384 + d);
+    }
+    for n in 8..=17u32 {
+        v.push((1u64 << n) - 1);
+        v.push(1u64 << n);
+        v.push((1u64 << n) + 1);
+    }
+    v.sort_unstable();
+    v.dedup();
+    v
+}
+
+fn size_bucket(size: u64, bs: u64) -> String {
+    let named = [0u64, 1, 16375, 16383, 16384, 16385, 16393, 32768, 65535, 65536, 65537];
+    if named.contains(&size) {
+        return format!("size/{size}");
+    }
+    if size + 2 >= bs && size <= bs + 2 {
+        let d = size as i64 - bs as i64;
+        return format!("size/bs{d:+}");
+    }
+    if (16375..=16393).contains(&size) {
+        return "size/16384+-9".to_owned();
+    }
+    if size > 0 && ((size + 1).is_power_of_two() || (size - 1).is_power_of_two() || size.is_power_of_two()) {
+        return "size/2^n+-1".to_owned();
+    }
+    format!("size/log2={}", 64 - size.leading_zeros())
+}
+
+fn gen_size(rng: &mut Rng, bs: u64, common_max: u64, big_max: u64, allow_big: bool) -> u64 {
+    let r = rng.below(100);
+    if r < 55 {
+        let named = named_sizes(bs);
+        return *rng.pick(&named);
+    }
+    if r < 58 && allow_big {
+        // log-uniform between common_max and big_max
+        let lo = (common_max as f64).ln();
+        let hi = (big_max as f64).ln();
+        let u = rng.below(1 << 20) as f64 / (1u64 << 20) as f64;
+        return (lo + (hi - lo) * u).exp() as u64;
+    }
+    let hi = (common_max as f64).ln();
+    let u = rng.below(1 << 20) as f64 / (1u64 << 20) as f64;
+    ((hi * u).exp() as u64).min(common_max)
+}
+
+fn gen_prog(rng: &mut Rng) -> IoProgram {
+    let write_seg = *rng.pick(&[1usize, 2, 9, 9, 100, 100, 1460, 1460, 1460, 16384, 16384, 16384, 0, 0, 0, 0]);
+    let pause = |rng: &mut Rng| match rng.below(10) {
+        0..=3 => 0,
+        4..=7 => rng.range(50, 1000),
+        _ => rng.range(1000, 5000),
+    };
+    let write_pause_us = pause(rng);
+    let read_chunk = *rng.pick(&[0usize, 0, 0, 0, 1, 9, 100, 1460, 4096, 16384]);
+    let read_pause_us = pause(rng);
+    let rcvbuf = if rng.chance(3, 10) { 4096 } else { 0 };
+    let sndbuf = if rng.chance(1, 8) { 4096 } else { 0 };
+    IoProgram { write_seg, write_pause_us, read_chunk, read_pause_us, rcvbuf, sndbuf }
+}
+
+fn gen_chunks(rng: &mut Rng, size: u64) -> Vec<usize> {
+    let n = rng.urange(1, 3);
+    let mut v = Vec::new();
+    for _ in 0..n {
+        let mut c = *rng.pick(CHUNK_SIZES);
+        if c == 0 {
+            c = size.max(1) as usize;
+        }
+        // tiny chunks only on bodies where they stay affordable (<= ~70k chunks)
+        if c < 16 && size > 65_537 * c as u64 {
+            c = 4096;
+        }
+        v.push(c);
+    }
+    v
+}
+
+fn gen_cell_cfg(rng: &mut Rng, with_h2c: bool) -> CellCfg {
+    let tight = rng.chance(1, 2);
+    let mut knobs = Vec::new();
+    let (buffer_size, min_buffers, max_buffers);
+    if tight {
+        buffer_size = 16393;
+        min_buffers = 1;
+        max_buffers = rng.range(24, 64);
+        for k in ["front_sndbuf", "front_rcvbuf", "back_sndbuf", "back_rcvbuf"] {
+            if rng.chance(3, 4) {
+                knobs.push((k.to_owned(), *rng.pick(&[2048i64, 4096, 4096, 8192, 16384])));
+            }
+        }
+    } else {
+        buffer_size = *rng.pick(&[16393u64, 16393, 16393, 32768, 65536]);
+        min_buffers = 1;
+        max_buffers = 1000;
+    }
+    let lanes = match rng.below(10) {
+        0..=6 => 1,
+        7..=8 => 2,
+        _ => 3,
+    };
+    let slow = |rng: &mut Rng| IoProgram { rcvbuf: 4096, sndbuf: if rng.bool() { 4096 } else { 0 }, ..IoProgram::default() };
+    let mut backends = vec![(Back::H1, IoProgram::default()), (Back::H1, slow(rng))];
+    if with_h2c {
+        backends.push((Back::H2c, IoProgram::default()));
+        backends.push((Back::H2c, slow(rng)));
+    }
+    CellCfg { tight, buffer_size, min_buffers, max_buffers, knobs, lanes, backends }
+}
+
+struct Sizes {
+    common_max: u64,
+    big_max: u64,
+}
+
+const H2_FRAME_SIZES: &[usize] = &[1, 2, 7, 9, 100, 4096, 16383, 16384, 0 /* as large as allowed */];
+
+fn gen_shape(rng: &mut Rng, size: u64, allow_empty: bool) -> H2Shape {
+    let n = rng.urange(1, 3);
+    let frame_sizes = (0..n).map(|_| *rng.pick(H2_FRAME_SIZES)).collect();
+    let end = match rng.below(10) {
+        0..=4 => H2End::OnLast,
+        5..=7 => H2End::EmptyData,
+        _ => H2End::Trailers,
+    };
+    let _ = size;
+    H2Shape { frame_sizes, padding: rng.chance(1, 3), empty_frames: allow_empty && rng.chance(1, 4), end, content_length: rng.chance(1, 2) }
+}
+
+fn h2_theme_label(s: &H2Shape) -> String {
+    let l = s.label();
+    let l = l.strip_prefix("h2data").unwrap_or(&l).trim_start_matches('+').to_owned();
+    if l.is_empty() { "plain".to_owned() } else { l }
+}
+
+/// one exchange for a connection of protocol `front` towards backend number `backend`
+#[allow(clippy::too_many_arguments)]
+fn gen_xfer(rng: &mut Rng, key: u64, cfg: &CellCfg, sz: &Sizes, front: Front, backend: usize, allow_big: bool, last_on_conn: bool, nstreams: usize) -> Xfer {
+    let bs = cfg.buffer_size;
+    let back = cfg.backends[backend].0;
+    // many concurrent streams: keep each of them moderate
+    let common_max = if nstreams > 8 { sz.common_max.min(70_000) } else { sz.common_max };
+    let dir = rng.below(100);
+    let (mut req_size, mut resp_size) = (0u64, 0u64);
+    let mut mode = Mode::Normal;
+    let has_req;
+    if dir < 38 {
+        has_req = true;
+        req_size = gen_size(rng, bs, common_max, sz.big_max, allow_big);
+    } else if dir < 76 {
+        has_req = false;
+        resp_size = gen_size(rng, bs, common_max, sz.big_max, allow_big);
+    } else {
+        has_req = true;
+        req_size = gen_size(rng, bs, common_max, sz.big_max, allow_big);
+        resp_size = gen_size(rng, bs, common_max, sz.big_max, allow_big && req_size < common_max);
+        let p = if front == Front::H2Tls && back == Back::H2c { 2 } else { 8 };
+        if rng.chance(1, p) {
+            mode = Mode::Early;
+        }
+    }
+    let allow_empty = nstreams <= 8;
+    let req_framing = if !has_req {
+        ReqFraming::NoBody
+    } else if front == Front::H2Tls {
+        ReqFraming::H2(gen_shape(rng, req_size, allow_empty))
+    } else {
+        match rng.below(10) {
+            0..=4 => ReqFraming::Cl,
+            _ => ReqFraming::Chunked {
+                sizes: gen_chunks(rng, req_size),
+                ext: rng.chance(1, 12),
+                trailers: rng.chance(1, 5),
+            },
+        }
+    };
+    let resp_framing = if back == Back::H2c {
+        RespFraming::H2(gen_shape(rng, resp_size, allow_empty))
+    } else {
+        match rng.below(20) {
+            0..=6 => RespFraming::Cl { close: false },
+            7 => RespFraming::Cl { close: true },
+            8..=13 => RespFraming::Chunked {
+                sizes: gen_chunks(rng, resp_size),
+                ext: rng.chance(1, 12),
+                trailers: rng.chance(1, 5),
+                close: rng.chance(1, 8),
+            },
+            14 => RespFraming::Close10,
+            15..=17 => RespFraming::Close11,
+            _ => RespFraming::Cl { close: false },
+        }
+    };
+    let fill = |rng: &mut Rng| match rng.below(10) {
+        0..=2 => 0,
+        3..=7 => rng.urange(1, 600),
+        _ => rng.urange(600, 6000),
+    };
+    let mut backend_prog = gen_prog(rng);
+    backend_prog.rcvbuf = 0;
+    backend_prog.sndbuf = 0;
+    // a close-delimited response ends an H1 connection anyway: most of these exchanges announce
+    // it (`Connection: close` in the request), the others leave it to sozu
+    let client_close = front != Front::H2Tls && if resp_framing.close_delimited() { rng.chance(4, 5) } else { last_on_conn && rng.chance(1, 5) };
+    Xfer {
+        key,
+        req_msg: key << 1,
+        resp_msg: (key << 1) | 1,
+        req_size,
+        resp_size,
+        req_framing,
+        resp_framing,
+        mode,
+        backend,
+        req_fill: fill(rng),
+        resp_fill: fill(rng),
+        client_close,
+        backend_prog,
+    }
+}
+
+pub(crate) struct CellPlan {
+    pub case: u64,
+    pub cfg: CellCfg,
+    pub conns: Vec<ConnPlan>,
+}
+
+fn h2_available() -> bool {
+    h2run::AVAILABLE
+}
+
+fn gen_cell(ctx: &Ctx, case: u64) -> CellPlan {
+    let mut rng = Rng::for_case(ctx.seed, 1, case);
+    let with_h2 = h2_available() && ctx.opt("h2") != Some("off");
+    let cfg = gen_cell_cfg(&mut rng, with_h2);
+    let sz = Sizes {
+        common_max: ctx.opt_u64("common_max", 256 * 1024),
+        big_max: ctx.opt_u64("big_max", ctx.tier.pick(8u64 << 20, 64u64 << 20)),
+    };
+    let n_conns = ctx.opt_u64("conns", 12) as usize;
+    let mut conns = Vec::new();
+    let mut n = 0u64;
+    // at most one very large transfer per cell
+    let mut big_left = if rng.chance(1, ctx.tier.pick(3, 6)) { 1 } else { 0 };
+    for idx in 0..n_conns {
+        let front = if with_h2 {
+            *rng.pick(&[Front::H1Tcp, Front::H1Tls, Front::H2Tls, Front::H2Tls])
+        } else {
+            *rng.pick(&[Front::H1Tcp, Front::H1Tls])
+        };
+        let prog = gen_prog(&mut rng);
+        let mut xfers = Vec::new();
+        let mut theme = String::new();
+        if front == Front::H2Tls {
+            let streams = match rng.below(10) {
+                0..=3 => 1,
+                4..=7 => rng.urange(2, 6),
+                _ => rng.urange(7, 32),
+            };
+            // one backend protocol and one H2 "theme" (padding / empty frames / how streams end)
+            // per H2 connection: a connection-level failure then has one pairing and one theme
+            let proto = if rng.chance(1, 3) { Back::H2c } else { Back::H1 };
+            let candidates: Vec<usize> = (0..cfg.backends.len()).filter(|i| cfg.backends[*i].0 == proto).collect();
+            let t = gen_shape(&mut rng, 0, streams <= 8);
+            theme = h2_theme_label(&t);
+            // early responses only on dedicated connections (counted and judged separately)
+            let early_conn = rng.chance(1, 6);
+            if early_conn {
+                theme.push_str("+early-responses");
+            }
+            for _ in 0..streams {
+                let key = (case << 24) | n;
+                n += 1;
+                let backend = *rng.pick(&candidates);
+                let allow_big = big_left > 0 && streams <= 4;
+                let mut x = gen_xfer(&mut rng, key, &cfg, &sz, front, backend, allow_big, false, streams);
+                for s in [
+                    match &mut x.req_framing { ReqFraming::H2(s) => Some(s), _ => None },
+                    match &mut x.resp_framing { RespFraming::H2(s) => Some(s), _ => None },
+                ].into_iter().flatten() {
+                    s.padding = t.padding;
+                    s.empty_frames = t.empty_frames;
+                    s.end = t.end.clone();
+                }
+                if x.mode == Mode::Early && !early_conn {
+                    x.mode = Mode::Normal;
+                } else if early_conn && x.req_size > 0 && x.resp_size > 0 {
+                    x.mode = Mode::Early;
+                }
+                if x.req_size > sz.common_max || x.resp_size > sz.common_max {
+                    big_left = 0;
+                }
+                xfers.push(x);
+            }
+        } else {
+            let k = match rng.below(10) {
+                0..=2 => 1,
+                3..=7 => rng.urange(2, 4),
+                _ => rng.urange(5, 8),
+            };
+            for j in 0..k {
+                let key = (case << 24) | n;
+                n += 1;
+                let backend = rng.usize_below(cfg.backends.len());
+                let mut x = gen_xfer(&mut rng, key, &cfg, &sz, front, backend, big_left > 0, j + 1 == k, 1);
+                if x.req_size > sz.common_max || x.resp_size > sz.common_max {
+                    big_left = 0;
+                }
+                if j + 1 < k && !x.resp_framing.close_delimited() {
+                    x.client_close = false;
+                }
+                xfers.push(x);
+            }
+        }
+        // debugging overrides (never set by the registered command)
+        for x in xfers.iter_mut() {
+            let shapes: Vec<&mut H2Shape> = [
+                match &mut x.req_framing { ReqFraming::H2(s) => Some(s), _ => None },
+                match &mut x.resp_framing { RespFraming::H2(s) => Some(s), _ => None },
+            ].into_iter().flatten().collect();
+            for s in shapes {
+                match ctx.opt("dbg_h2_end") {
+                    Some("last") => s.end = H2End::OnLast,
+                    Some("empty") => s.end = H2End::EmptyData,
+                    Some("trailers") => s.end = H2End::Trailers,
+                    _ => {}
+                }
+                if ctx.opt("dbg_h2_nopad").is_some() {
+                    s.padding = false;
+                }
+                if ctx.opt("dbg_h2_noempty").is_some() {
+                    s.empty_frames = false;
+                }
+            }
+            if ctx.opt("dbg_normal").is_some() {
+                x.mode = Mode::Normal;
+            }
+        }
+        conns.push(ConnPlan { idx, front, prog, xfers, seed: rng.next_u64(), theme });
+    }
+    CellPlan { case, cfg, conns }
+}
+
+// ---------------------------------------------------------------------------------------------
+// running a cell
+
+pub(crate) struct CellEnv {
+    /// re-run in isolation: only the generous watchdog (20 s without a byte moving) applies
+    pub generous: bool,
+    pub probe: Arc<sozu_lib::verif::Probe>,
+    pub single_lane: bool,
+    pub ip: Ipv4Addr,
+    pub http: SocketAddr,
+    pub https: SocketAddr,
+    pub shared: Arc<CellShared>,
+    pub cfg: CellCfg,
+}
+
+#[derive(Clone, Debug)]
+pub(crate) struct XferOutcome {
+    pub conn: usize,
+    pub front: Front,
+    pub nth: usize,
+    pub concurrent: usize,
+    pub client_prog: IoProgram,
+    pub xfer: Xfer,
+    pub client: ClientObs,
+    pub back: Option<BackObs>,
+}
+
+struct StallCandidate {
+    case: u64,
+    conn: usize,
+    key: u64,
+    signature: String,
+    witness: Value,
+}
+
+struct Globals {
+    io_programs: Mutex<HashSet<u64>>,
+    stalls: Mutex<Vec<StallCandidate>>,
+}
+
+impl CellEnv {
+    pub fn io_now(&self) -> [u64; 4] {
+        let c = self.probe.counters();
+        let g = |k: &str| c.get(k).copied().unwrap_or(0);
+        [
+            g("io.session_tcp.write.wouldblock") + g("io.session_tcp.writev.wouldblock"),
+            g("io.session_tcp.write.partial") + g("io.session_tcp.writev.partial"),
+            g("io.rustls.write.wouldblock") + g("io.rustls.writev.wouldblock"),
+            g("io.rustls.write.partial") + g("io.rustls.writev.partial"),
+        ]
+    }
+    pub fn io_since(&self, before: &[u64; 4]) -> Option<[u64; 4]> {
+        if !self.single_lane {
+            return None;
+        }
+        let n = self.io_now();
+        Some([n[0] - before[0], n[1] - before[1], n[2] - before[2], n[3] - before[3]])
+    }
+}
+
+fn counters_delta(before: &BTreeMap<String, u64>, after: &BTreeMap<String, u64>) -> BTreeMap<String, u64> {
+    let mut d = BTreeMap::new();
+    for (k, v) in after {
+        let b = before.get(k).copied().unwrap_or(0);
+        if *v > b {
+            d.insert(k.clone(), v - b);
+        }
+    }
+    d
+}
+
+fn sum_counters(c: &BTreeMap<String, u64>, kinds: &[&str], ops: &[&str], suffix: &str) -> u64 {
+    let mut s = 0;
+    for k in kinds {
+        for o in ops {
+            s += c.get(&format!("io.{k}.{o}.{suffix}")).copied().unwrap_or(0);
+        }
+    }
+    s
+}
+
+fn start_cell(plan: &CellPlan, rep: &mut Report) -> Option<(Worker, Vec<BackendServer>, CellEnv)> {
+    let ip = lab::fresh_ip();
+    let http = lab::sa(ip, 8080);
+    let https = lab::sa(ip, 8443);
+    let shared = CellShared::new(plan.case);
+    let mut servers = Vec::new();
+    for (i, (proto, prog)) in plan.cfg.backends.iter().enumerate() {
+        let addr = lab::sa(ip, 9000 + i as u16);
+        let sh = shared.clone();
+        let proto = *proto;
+        let lprog = prog.clone();
+        let res = BackendServer::start(addr, prog.clone(), move |sock, idx| {
+            sh.backend_conns.fetch_add(1, Ordering::Relaxed);
+            match proto {
+                Back::H1 => h1run::backend_conn(&sh, sock, idx, &lprog),
+                Back::H2c => h2run::backend_conn(&sh, sock, idx, &lprog),
+            }
+        });
+        match res {
+            Ok(s) => servers.push(s),
+            Err(e) => {
+                rep.inconclusive(&format!("harness: cannot start backend: {e}"));
+                return None;
+            }
+        }
+    }
+    let opts = WorkerOpts {
+        buffer_size: plan.cfg.buffer_size,
+        min_buffers: plan.cfg.min_buffers,
+        max_buffers: plan.cfg.max_buffers,
+        front_timeout: 300,
+        back_timeout: 300,
+        connect_timeout: 5,
+        request_timeout: 300,
+        knobs: plan.cfg.knobs.clone(),
+        ..WorkerOpts::default()
+    };
+    let mut w = Worker::start(opts);
+    let tweak = |b: &mut sozu_command_lib::config::ListenerBuilder| {
+        b.with_front_timeout(Some(300))
+            .with_back_timeout(Some(300))
+            .with_request_timeout(Some(300))
+            .with_connect_timeout(Some(5));
+    };
+    let mut ok = w.add_http_listener(http, tweak) && w.add_https_listener(https, tweak);
+    let cert = std::fs::read_to_string("/repo/lib/assets/certificate.pem").unwrap_or_default();
+    let key = std::fs::read_to_string("/repo/lib/assets/key.pem").unwrap_or_default();
+    let mut names = Vec::new();
+    for (i, (proto, _)) in plan.cfg.backends.iter().enumerate() {
+        let cid = format!("c{i}");
+        let host = host_of(i);
+        ok = ok
+            && w.add_cluster(Cluster {
+                cluster_id: cid.clone(),
+                http2: if *proto == Back::H2c { Some(true) } else { None },
+                ..Default::default()
+            })
+            && w.add_http_frontend(Worker::http_frontend(&cid, http, &host, "/"))
+            && w.add_https_frontend(Worker::http_frontend(&cid, https, &host, "/"))
+            && w.add_backend(&cid, &format!("{cid}-0"), lab::sa(ip, 9000 + i as u16));
+        names.push(host);
+    }
+    ok = ok && w.add_certificate(https, &cert, vec![], &key, names);
+    if !ok {
+        rep.inconclusive("harness: worker configuration was not accepted");
+        let _ = w.stop();
+        return None;
+    }
+    let env = CellEnv { generous: false, probe: w.probe.clone(), single_lane: true, ip, http, https, shared, cfg: plan.cfg.clone() };
+    Some((w, servers, env))
+}
+
+fn run_conn(env: &CellEnv, conn: &ConnPlan) -> Vec<XferOutcome> {
+    for x in &conn.xfers {
+        env.shared.specs.lock().unwrap().insert(x.key, Arc::new(x.clone()));
+    }
+    match conn.front {
+        Front::H1Tcp | Front::H1Tls => h1run::client_conn(env, conn),
+        Front::H2Tls => h2run::client_conn(env, conn),
+    }
+}
+
+/// run the cell (or only connection `only_conn` of it); returns the outcomes and the hook counters
+fn run_cell(plan: &CellPlan, only_conn: Option<usize>, only_key: Option<u64>, rerun: bool, cell_budget: Duration, rep: &mut Report) -> Option<(Vec<XferOutcome>, BTreeMap<String, u64>, Vec<crate::common::PanicRec>)> {
+    let (w, mut servers, mut env) = start_cell(plan, rep)?;
+    // a re-run in isolation of an H1 exchange runs that exchange alone on a fresh connection
+    let narrowed: Vec<ConnPlan> = plan.conns.iter().filter(|c| only_conn.is_none_or(|o| o == c.idx)).map(|c| {
+        let mut c = c.clone();
+        if let (true, Some(k), true) = (rerun, only_key, c.front != Front::H2Tls) {
+            c.xfers.retain(|x| x.key == k);
+        }
+        c
+    }).collect();
+    let conns: Vec<&ConnPlan> = narrowed.iter().collect();
+    let lanes = if only_conn.is_some() { 1 } else { plan.cfg.lanes.max(1) };
+    env.single_lane = lanes == 1;
+    env.generous = only_conn.is_some() && rerun;
+    let before = w.probe.counters();
+    let mut outcomes: Vec<XferOutcome> = Vec::new();
+    // a cell whose connections keep running into watchdogs stops opening new ones
+    let cell_start = Instant::now();
+    let over = || only_conn.is_none() && cell_start.elapsed() > cell_budget;
+    if lanes == 1 {
+        for c in &conns {
+            if over() {
+                rep.obs("connections_skipped_cell_time_budget", 1);
+                continue;
+            }
+            outcomes.extend(run_conn(&env, c));
+        }
+    } else {
+        let next = AtomicU64::new(0);
+        let all: Mutex<Vec<XferOutcome>> = Mutex::new(Vec::new());
+        std::thread::scope(|s| {
+            for _ in 0..lanes {
+                s.spawn(|| {
+                    loop {
+                        let i = next.fetch_add(1, Ordering::SeqCst) as usize;
+                        if i >= conns.len() || over() {
+                            break;
+                        }
+                        let o = run_conn(&env, conns[i]);
+                        all.lock().unwrap().extend(o);
+                    }
+                });
+            }
+        });
+        outcomes = all.into_inner().unwrap();
+        outcomes.sort_by_key(|o| o.xfer.key);
+    }
+    let after = w.probe.counters();
+    env.shared.stop.store(true, Ordering::SeqCst);
+    let panics = w.stop();
+    for s in &mut servers {
+        s.stop();
+    }
+    rep.obs("backend_connections", env.shared.backend_conns.load(Ordering::Relaxed));
+    rep.obs("backend_connection_reuses", env.shared.backend_reuse.load(Ordering::Relaxed));
+    rep.obs_max("h2_concurrent_streams_backend", env.shared.h2_max_concurrent_back.load(Ordering::Relaxed));
+    Some((outcomes, counters_delta(&before, &after), panics))
+}
+
+// ---------------------------------------------------------------------------------------------
+// judging
+
+fn framing_label_up(x: &Xfer) -> String {
+    x.req_framing.label()
+}
+fn framing_label_down(x: &Xfer) -> String {
+    x.resp_framing.label()
+}
+/// framing class used in signatures: H2 shapes are reduced to how the stream ends (padding and
+/// empty frames stay in the witness and in the evidence keys)
+fn sig_up(x: &Xfer) -> String {
+    match &x.req_framing {
+        ReqFraming::H2(s) => coarse_h2(s),
+        f => f.label(),
+    }
+}
+fn sig_down(x: &Xfer) -> String {
+    match &x.resp_framing {
+        RespFraming::H2(s) => coarse_h2(s),
+        f => f.label(),
+    }
+}
+fn coarse_h2(s: &H2Shape) -> String {
+    match s.end {
+        H2End::OnLast => "h2".into(),
+        H2End::EmptyData => "h2+end-on-empty".into(),
+        H2End::Trailers => "h2+end-on-trailers".into(),
+    }
+}
+fn coarse_theme(theme: &str) -> String {
+    let mut parts: Vec<&str> = theme.split('+').filter(|p| *p != "pad" && *p != "empty" && *p != "plain").collect();
+    if parts.is_empty() {
+        parts.push("plain");
+    }
+    parts.join("+")
+}
+
+fn witness(ctx: &Ctx, plan: &CellPlan, o: &XferOutcome, extra: Value) -> Value {
+    json!({
+        "case": plan.case, "seed": ctx.seed, "conn": o.conn, "nth_on_conn": o.nth, "concurrent_streams": o.concurrent,
+        "pair": pair_name(o.front, plan.cfg.backends[o.xfer.backend].0),
+        "cell": plan.cfg.json(),
+        "client_prog": o.client_prog.describe(),
+        "backend_listener_prog": plan.cfg.backends[o.xfer.backend].1.describe(),
+        "xfer": o.xfer.json(),
+        "client": {
+            "req_bytes_written": o.client.req_bytes_written, "req_sent_complete": o.client.req_sent_complete,
+            "send_error": o.client.send_error, "status": o.client.status, "from_backend": o.client.from_backend,
+            "resp": o.client.resp.json(), "stalled": o.client.stalled, "garbage_after": o.client.garbage_after,
+            "note": o.client.note, "elapsed_ms": o.client.elapsed_ms,
+        },
+        "backend": o.back.as_ref().map(|b| json!({
+            "conn_idx": b.conn_idx, "nth_on_conn": b.nth_on_conn, "seen": b.seen, "req": b.req.json(),
+            "resp_started": b.resp_started, "resp_bytes_written": b.resp_bytes_written,
+            "resp_sent_complete": b.resp_sent_complete, "resp_error": b.resp_error,
+            "sozu_closed_backend_connection_after_response": b.peer_closed_after_resp,
+        })),
+        "detail": extra,
+    })
+}
+
+/// all messages of the cell, for localising foreign bytes
+fn candidates(plan: &CellPlan) -> Vec<(u64, u64)> {
+    let mut v = Vec::new();
+    for c in &plan.conns {
+        for x in &c.xfers {
+            v.push((x.req_msg, x.req_size));
+            v.push((x.resp_msg, x.resp_size));
+        }
+    }
+    v
+}
+
+struct Judge<'a> {
+    ctx: &'a Ctx,
+    plan: &'a CellPlan,
+    globals: &'a Globals,
+    rerun: bool,
+    /// H2 connections whose death has already been reported
+    killed_reported: std::cell::RefCell<HashSet<usize>>,
+}
+
+impl Judge<'_> {
+    /// returns true when the transfer was judged (not exempt)
+    fn judge(&self, o: &XferOutcome, rep: &mut Report) -> bool {
+        let x = &o.xfer;
+        let back_proto = self.plan.cfg.backends[x.backend].0;
+        let pair = pair_name(o.front, back_proto);
+        let dir = x.direction();
+        let c = &o.client;
+        if !c.attempted {
+            rep.obs("exempt/not_attempted_after_earlier_failure_on_connection", 1);
+            return false;
+        }
+        let mut judged = false;
+        let mut violated = false;
+
+        // --- an H2 connection that stalls: one candidate per connection
+        if c.conn_level && c.stalled {
+            let theme = self.plan.conns.iter().find(|cp| cp.idx == o.conn).map(|cp| cp.theme.clone()).unwrap_or_default();
+            if !self.killed_reported.borrow_mut().insert(o.conn) {
+                rep.obs("collateral/stream_of_a_stalled_h2_connection", 1);
+                return true;
+            }
+            let sig = format!("bodies/stalled/{pair}/h2-connection/{}", coarse_theme(&theme));
+            let siblings: Vec<Value> = self.plan.conns.iter().find(|cp| cp.idx == o.conn).map(|cp| cp.xfers.iter().map(|x| x.json()).collect()).unwrap_or_default();
+            let (up, down) = (o.back.as_ref().map(|b| b.req.bytes).unwrap_or(0), c.resp.bytes);
+            let wit = witness(self.ctx, self.plan, o, json!({"theme": theme, "streams_of_connection": siblings, "silence_before_giving_up_s": c.stall_silence_s,
+                "first_unfinished_stream": {"request_body_bytes_at_backend": up, "of": x.req_size, "response_body_bytes_at_client": down, "of_resp": x.resp_size}}));
+            if self.rerun {
+                rep.violation(&sig, &format!("an H2 client connection stopped making progress while all peers were willing (also when re-run alone); first unfinished stream: request body {up}/{} bytes at the backend, response body {down}/{} bytes at the client; theme '{theme}'", x.req_size, x.resp_size), wit);
+            } else {
+                rep.obs("stall_candidates", 1);
+                rep.obs(&format!("stall_candidate/{}/silence={}s", sig.trim_start_matches("bodies/stalled/"), c.stall_silence_s), 1);
+                self.globals.stalls.lock().unwrap().push(StallCandidate { case: self.plan.case, conn: o.conn, key: x.key, signature: sig, witness: wit });
+            }
+            return true;
+        }
+        // --- an H2 connection that died takes all its streams with it: one verdict per connection
+        if c.conn_level {
+            let theme = self.plan.conns.iter().find(|cp| cp.idx == o.conn).map(|cp| cp.theme.clone()).unwrap_or_default();
+            let (kind, detail) = c.resp.error.clone().unwrap_or_default();
+            let kind = if kind == "goaway" {
+                let code = detail.split("code=").nth(1).and_then(|s| s.split(' ').next()).unwrap_or("?").to_owned();
+                format!("goaway_code_{code}")
+            } else {
+                kind
+            };
+            if !(c.from_backend || c.req_sent_complete) {
+                rep.obs("exempt/h2_connection_ended_before_exchange_was_under_way", 1);
+                return false;
+            }
+            if self.killed_reported.borrow_mut().insert(o.conn) {
+                let sig = format!("bodies/h2_connection_killed/{pair}/{}/{kind}", coarse_theme(&theme));
+                let siblings: Vec<Value> = self.plan.conns.iter().find(|cp| cp.idx == o.conn).map(|cp| cp.xfers.iter().map(|x| x.json()).collect()).unwrap_or_default();
+                rep.violation(&sig, &format!("sozu ended the whole H2 client connection ({detail}) while exchanges with cleanly sending peers were under way; every stream of the connection used the framing theme '{theme}'"),
+                    witness(self.ctx, self.plan, o, json!({"theme": theme, "streams_of_connection": siblings})));
+            } else {
+                rep.obs("collateral/stream_of_a_killed_h2_connection", 1);
+            }
+            if let Some(b) = &o.back {
+                if let Some(m) = &b.req.mismatch {
+                    let _ = m;
+                } else {
+                    return true;
+                }
+            } else {
+                return true;
+            }
+        }
+
+        // --- byte equality: judged whenever bytes arrived, whoever sent what afterwards
+        let early_h1_unfinished = x.mode == Mode::Early && !(o.front == Front::H2Tls && back_proto == Back::H2c) && !c.req_sent_complete;
+        if let Some(m) = &c.resp.mismatch {
+            if early_h1_unfinished && m.off >= x.resp_size {
+                // H1 early response on a close-delimited body: what sozu makes of the rest of the
+                // request (e.g. a 400 answer appended on the same connection) is not judged
+                rep.obs("exempt/h1_early_response_bytes_after_complete_body", 1);
+            } else if c.from_backend {
+                let ident = wire::identify(&m.actual, &candidates(self.plan));
+                let sig = format!("bodies/corrupt/{pair}/download/{}", sig_down(x));
+                rep.violation(&sig, &format!("response body differs from what the backend sent at offset {} of message {} ({} bytes): expected {} got {}{}",
+                    m.off, x.resp_msg, x.resp_size, hex::encode(&m.expected), hex::encode(&m.actual),
+                    ident.as_ref().map(|s| format!(" — {s}")).unwrap_or_default()),
+                    witness(self.ctx, self.plan, o, json!({"first_bad_offset": m.off, "identified": ident})));
+                violated = true;
+            }
+        }
+        if let Some(b) = &o.back {
+            if let Some(m) = &b.req.mismatch {
+                let ident = wire::identify(&m.actual, &candidates(self.plan));
+                let sig = format!("bodies/corrupt/{pair}/upload/{}", sig_up(x));
+                rep.violation(&sig, &format!("request body differs from what the client sent at offset {} of message {} ({} bytes): expected {} got {}{}",
+                    m.off, x.req_msg, x.req_size, hex::encode(&m.expected), hex::encode(&m.actual),
+                    ident.as_ref().map(|s| format!(" — {s}")).unwrap_or_default()),
+                    witness(self.ctx, self.plan, o, json!({"first_bad_offset": m.off, "identified": ident})));
+                violated = true;
+            }
+            if b.seen > 1 {
+                rep.obs("note/backend_saw_request_more_than_once", 1);
+            }
+        }
+        if let (Some(_), true) = (&c.garbage_after, x.mode == Mode::Early && !(o.front == Front::H2Tls && back_proto == Back::H2c)) {
+            // after an H1 early response, what sozu makes of the rest of the request is not judged
+            rep.obs("exempt/h1_early_response_bytes_after_the_response", 1);
+        } else if let Some(g) = &c.garbage_after {
+            let sig = format!("bodies/garbage_after_message/{pair}");
+            rep.violation(&sig, &format!("bytes followed the last complete response on the connection: {g}"),
+                witness(self.ctx, self.plan, o, json!({"garbage": g})));
+            violated = true;
+        }
+
+        // --- stall
+        if c.stalled {
+            let (up, down) = (o.back.as_ref().map(|b| b.req.bytes).unwrap_or(0), c.resp.bytes);
+            // which direction is stuck: the one whose receiver has not seen the end
+            let up_done = o.back.as_ref().is_some_and(|b| b.req.ended);
+            let down_done = c.resp.ended;
+            let (sdir, sframing) = match (up_done, down_done) {
+                (false, false) if c.resp.head_seen => ("both", format!("{}+{}", sig_up(x), sig_down(x))),
+                (false, _) => ("upload", sig_up(x)),
+                _ => ("download", sig_down(x)),
+            };
+            let sig = format!("bodies/stalled/{pair}/{sdir}/{sframing}");
+            let wit = witness(self.ctx, self.plan, o, json!({"request_body_bytes_at_backend": up, "of": x.req_size,
+                "response_body_bytes_at_client": down, "of_resp": x.resp_size, "exchange_direction": dir,
+                "only_the_end_of_message_is_missing": c.only_end_missing, "silence_before_giving_up_s": c.stall_silence_s}));
+            if self.rerun {
+                rep.violation(&sig, &format!("transfer stopped making progress while both peers were willing (also when re-run alone): request body {up}/{} bytes at the backend, response body {down}/{} bytes at the client",
+                    x.req_size, x.resp_size), wit);
+            } else {
+                rep.obs("stall_candidates", 1);
+                rep.obs(&format!("stall_candidate/{}/silence={}s", sig.trim_start_matches("bodies/stalled/"), c.stall_silence_s), 1);
+                self.globals.stalls.lock().unwrap().push(StallCandidate { case: self.plan.case, conn: o.conn, key: x.key, signature: sig, witness: wit });
+            }
+            return true;
+        }
+        if c.watchdog_cap {
+            if std::env::var_os("VH_C01_DEBUG").is_some() {
+                eprintln!("CAP {}", witness(self.ctx, self.plan, o, json!({})));
+            }
+            rep.inconclusive("watchdog: overall time cap reached while bytes were still moving");
+            return false;
+        }
+
+        // --- upload termination
+        let full_duplex_pair = o.front == Front::H2Tls && back_proto == Back::H2c;
+        let upload_in_scope = x.mode == Mode::Normal || full_duplex_pair;
+        if upload_in_scope {
+            match &o.back {
+                None => {
+                    if c.from_backend {
+                        rep.broken(&format!("harness: client got backend response for key {} but backend recorded nothing", x.key));
+                    }
+                }
+                Some(b) if b.req.mismatch.is_some() => {}
+                Some(b) => {
+                    if b.req.ended && b.req.bytes == x.req_size {
+                        judged = true;
+                        rep.obs(&format!("ok/{pair}/upload"), 1);
+                        rep.obs("bytes_verified", b.req.bytes);
+                        if let ReqFraming::Chunked { trailers: true, .. } = x.req_framing {
+                            rep.obs(if b.req.trailers.unwrap_or(0) > 0 { "exempt_info/request_trailers_forwarded" } else { "exempt_info/request_trailers_dropped" }, 1);
+                        }
+                        rep.obs(&format!("recv_framing/upload/{}=>{}", framing_label_up(x), b.req.recv_framing), 1);
+                    } else if b.req.ended {
+                        // clean-looking end at the wrong length
+                        judged = true;
+                        violated = true;
+                        let kind = if b.req.bytes < x.req_size { "short_body" } else { "extra_bytes" };
+                        let sig = format!("bodies/{kind}/{pair}/upload/{}", sig_up(x));
+                        rep.violation(&sig, &format!("backend saw the request end cleanly after {} body bytes, the client sent {}", b.req.bytes, x.req_size),
+                            witness(self.ctx, self.plan, o, json!({"received": b.req.bytes, "sent": x.req_size})));
+                    } else if let Some((kind, detail)) = &b.req.error {
+                        if kind == "malformed" {
+                            judged = true;
+                            violated = true;
+                            let sig = format!("bodies/malformed/{pair}/upload/{}", sig_up(x));
+                            rep.violation(&sig, &format!("strict decoder at the backend rejected the forwarded request after {} body bytes: {detail}", b.req.bytes),
+                                witness(self.ctx, self.plan, o, json!({"received": b.req.bytes})));
+                        } else if c.req_sent_complete {
+                            judged = true;
+                            violated = true;
+                            // a request without body can only be missing its end-of-message signal
+                            let kind = if !x.req_framing.has_body() { "unterminated" } else { kind.as_str() };
+                            let sig = format!("bodies/{kind}/{pair}/upload/{}", sig_up(x));
+                            rep.violation(&sig, &format!("client sent the complete request ({} body bytes, clean end) but the backend saw {kind} after {} body bytes: {detail}", x.req_size, b.req.bytes),
+                                witness(self.ctx, self.plan, o, json!({"received": b.req.bytes, "sent": x.req_size})));
+                        } else {
+                            rep.obs(&format!("exempt/upload_cut_before_client_finished/{kind}"), 1);
+                        }
+                    } else if c.from_backend && c.resp.ended && b.eager && c.req_sent_complete {
+                        // the backend served the body-less request from its HEADERS; the end of
+                        // the request was never signalled although the client ended it cleanly
+                        judged = true;
+                        violated = true;
+                        let sig = format!("bodies/unterminated/{pair}/upload/{}", sig_up(x));
+                        rep.violation(&sig, &format!("the client sent a complete request ({} body bytes) and got its response, but the backend never saw the end of the request (no END_STREAM) after {} body bytes", x.req_size, b.req.bytes),
+                            witness(self.ctx, self.plan, o, json!({"received": b.req.bytes, "sent": x.req_size})));
+                    } else if c.from_backend && c.resp.ended && !b.eager && x.mode == Mode::Normal {
+                        rep.broken(&format!("harness: backend answered key {} without having finished the request", x.key));
+                    } else {
+                        rep.obs("exempt/upload_unfinished_without_receiver_verdict", 1);
+                    }
+                }
+            }
+        }
+
+        // --- download termination
+        if !c.from_backend {
+            match c.status {
+                Some(s) => rep.obs(&format!("exempt/sozu_answer/{pair}/{s}"), 1),
+                None => {
+                    if let Some(e) = &c.send_error {
+                        rep.obs(&format!("exempt/no_response/{pair}/send_error"), 1);
+                        let _ = e;
+                    } else if let Some((k, _)) = &c.resp.error {
+                        rep.obs(&format!("exempt/no_response/{pair}/{k}"), 1);
+                    } else {
+                        rep.obs(&format!("exempt/no_response/{pair}/other"), 1);
+                    }
+                }
+            }
+            if let Some(n) = &c.note {
+                rep.obs(&format!("note/{n}"), 1);
+            }
+            return judged || violated;
+        }
+        let r = &c.resp;
+        if r.mismatch.is_some() {
+            return !(early_h1_unfinished && r.mismatch.as_ref().is_some_and(|m| m.off >= x.resp_size));
+        }
+        let sender_clean = o.back.as_ref().is_some_and(|b| b.resp_sent_complete);
+        if r.ended && r.bytes == x.resp_size {
+            judged = true;
+            rep.obs(&format!("ok/{pair}/download"), 1);
+            rep.obs("bytes_verified", r.bytes);
+            if let RespFraming::Chunked { trailers: true, .. } = x.resp_framing {
+                rep.obs(if r.trailers.unwrap_or(0) > 0 { "exempt_info/response_trailers_forwarded" } else { "exempt_info/response_trailers_dropped" }, 1);
+            }
+            rep.obs(&format!("recv_framing/download/{}=>{}", framing_label_down(x), r.recv_framing), 1);
+        } else if r.ended {
+            judged = true;
+            violated = true;
+            let kind = if r.bytes < x.resp_size { "short_body" } else { "extra_bytes" };
+            let sig = format!("bodies/{kind}/{pair}/download/{}", sig_down(x));
+            rep.violation(&sig, &format!("client saw the response end cleanly after {} body bytes, the backend sent {}", r.bytes, x.resp_size),
+                witness(self.ctx, self.plan, o, json!({"received": r.bytes, "sent": x.resp_size})));
+        } else if let Some((kind, detail)) = &r.error {
+            if kind == "malformed" {
+                judged = true;
+                violated = true;
+                let sig = format!("bodies/malformed/{pair}/download/{}", sig_down(x));
+                rep.violation(&sig, &format!("strict decoder at the client rejected the forwarded response after {} body bytes: {detail}", r.bytes),
+                    witness(self.ctx, self.plan, o, json!({"received": r.bytes})));
+            } else if early_h1_unfinished {
+                // H1 early response: the client was still sending; how sozu ends that connection
+                // is not covered by the statement
+                rep.obs(&format!("exempt/h1_early_response_cut/{kind}"), 1);
+            } else if sender_clean {
+                judged = true;
+                violated = true;
+                let sig = format!("bodies/{kind}/{pair}/download/{}", sig_down(x));
+                rep.violation(&sig, &format!("backend sent the complete response ({} body bytes, clean end) but the client saw {kind} after {} body bytes: {detail}", x.resp_size, r.bytes),
+                    witness(self.ctx, self.plan, o, json!({"received": r.bytes, "sent": x.resp_size})));
+            } else {
+                rep.obs(&format!("exempt/download_cut_but_sender_did_not_finish/{kind}"), 1);
+            }
+        } else {
+            rep.obs("exempt/download_unfinished_without_receiver_verdict", 1);
+        }
+        if let Some(n) = &c.note {
+            rep.obs(&format!("note/{n}"), 1);
+        }
+        let _ = violated;
+        judged
+    }
+}
+
+fn account(plan: &CellPlan, o: &XferOutcome, judged: bool, globals: &Globals, rep: &mut Report) {
+    let x = &o.xfer;
+    let back_proto = plan.cfg.backends[x.backend].0;
+    let pair = pair_name(o.front, back_proto);
+    let dir = x.direction();
+    let bs = plan.cfg.buffer_size;
+    let backend_listener = &plan.cfg.backends[x.backend].1;
+    let progs = format!("{}|{}|{}|{:?}", o.client_prog.describe(), x.backend_prog.describe(), backend_listener.describe(), plan.cfg.knobs);
+    globals.io_programs.lock().unwrap().insert(fnv1a(progs.as_bytes()));
+    let shape = format!("{pair}|{dir}|{}|{}|{}|{}|{progs}", framing_label_up(x), framing_label_down(x), size_bucket(x.req_size, bs), size_bucket(x.resp_size, bs));
+    rep.case_bytes(shape.as_bytes(), judged);
+    if !judged {
+        return;
+    }
+    rep.obs("transfers_judged", 1);
+    match dir {
+        "upload" => {
+            rep.obs(&format!("xfer/{pair}/upload/{}", framing_label_up(x)), 1);
+            rep.obs(&size_bucket(x.req_size, bs), 1);
+        }
+        "download" => {
+            rep.obs(&format!("xfer/{pair}/download/{}", framing_label_down(x)), 1);
+            rep.obs(&size_bucket(x.resp_size, bs), 1);
+        }
+        d => {
+            rep.obs(&format!("xfer/{pair}/{d}/up:{}", framing_label_up(x)), 1);
+            rep.obs(&format!("xfer/{pair}/{d}/down:{}", framing_label_down(x)), 1);
+            rep.obs(&size_bucket(x.req_size, bs), 1);
+            rep.obs(&size_bucket(x.resp_size, bs), 1);
+        }
+    }
+    rep.obs(&format!("pairing/{pair}"), 1);
+    rep.obs(&format!("direction/{dir}"), 1);
+    rep.obs(&format!("framing/up/{}", framing_label_up(x)), 1);
+    rep.obs(&format!("framing/down/{}", framing_label_down(x)), 1);
+    if o.nth > 0 {
+        rep.obs("keepalive_followup_requests", 1);
+    }
+    rep.obs_max("keepalive_requests_on_one_connection", o.nth as u64 + 1);
+    rep.obs_max("h2_concurrent_streams_client", o.concurrent as u64);
+    if let Some(b) = &o.back {
+        if b.nth_on_conn > 0 {
+            rep.obs("backend_connection_reused_for_transfer", 1);
+        }
+    }
+    rep.obs_max("body_size", x.req_size.max(x.resp_size));
+    for (shape, who) in [(match &x.req_framing { ReqFraming::H2(s) => Some(s), _ => None }, "request"), (match &x.resp_framing { RespFraming::H2(s) => Some(s), _ => None }, "response")] {
+        if let Some(s) = shape {
+            rep.obs(&format!("h2/{who}_bodies_sent_as_h2"), 1);
+            if s.padding {
+                rep.obs("h2/padded_data_frames_sent", 1);
+            }
+            if s.empty_frames {
+                rep.obs("h2/empty_data_frames_sent", 1);
+            }
+            rep.obs(&format!("h2/end_stream/{:?}", s.end), 1);
+        }
+    }
+    if o.front == Front::H2Tls && o.nth == 0 {
+        rep.obs("h2/client_connections", 1);
+        if o.concurrent >= 8 {
+            rep.obs("h2/connections_with_8_or_more_concurrent_streams", 1);
+        }
+    }
+    // which side of sozu saw back-pressure during this exchange. The hook counts plain frontend
+    // and backend sockets under one kind (session_tcp), TLS frontends under rustls: on TLS
+    // connections the split is exact; on plain connections it is exact for one-directional
+    // exchanges (the other direction only carries a head) and "either side" otherwise.
+    if let Some(d) = o.client.io_delta {
+        let tls = o.front != Front::H1Tcp;
+        let (mut f_wb, mut b_wb, mut f_pa, mut b_pa, mut any) = (0, 0, 0, 0, 0);
+        if tls {
+            f_wb = d[2];
+            f_pa = d[3];
+            b_wb = d[0];
+            b_pa = d[1];
+        } else {
+            match dir {
+                "download" => {
+                    f_wb = d[0];
+                    f_pa = d[1];
+                }
+                "upload" => {
+                    b_wb = d[0];
+                    b_pa = d[1];
+                }
+                _ => any = d[0] + d[1],
+            }
+        }
+        if f_wb > 0 {
+            rep.obs("executions_with_sozu_front_write_wouldblock", 1);
+            rep.obs(&format!("executions_with_sozu_front_write_wouldblock/{pair}"), 1);
+        }
+        if b_wb > 0 {
+            rep.obs("executions_with_sozu_back_write_wouldblock", 1);
+            rep.obs(&format!("executions_with_sozu_back_write_wouldblock/{pair}"), 1);
+        }
+        if f_pa > 0 {
+            rep.obs("executions_with_sozu_front_partial_write", 1);
+        }
+        if b_pa > 0 {
+            rep.obs("executions_with_sozu_back_partial_write", 1);
+        }
+        if any > 0 {
+            rep.obs("executions_with_sozu_write_wouldblock_or_partial_side_unattributed", 1);
+        }
+        if f_wb > 0 && b_wb > 0 {
+            rep.obs("executions_with_sozu_write_wouldblock_on_both_sides", 1);
+        }
+    }
+}
+
+fn run_case(ctx: &Ctx, case: u64, globals: &Globals, only_conn: Option<usize>, only_key: Option<u64>, rerun: bool, rep: &mut Report) -> Vec<XferOutcome> {
+    let plan = gen_cell(ctx, case);
+    let t_cell = Instant::now();
+    let Some((outcomes, delta, panics)) = run_cell(&plan, only_conn, only_key, rerun, Duration::from_secs(ctx.opt_u64("cell_budget", ctx.tier.pick(20, 240))), rep) else {
+        return Vec::new();
+    };
+    rep.obs_max("cell_ms", t_cell.elapsed().as_millis() as u64);
+    if std::env::var_os("VH_C01_DEBUG").is_some() && t_cell.elapsed() > Duration::from_secs(30) {
+        let mut slow: Vec<(u64, String)> = outcomes.iter().filter(|o| o.client.elapsed_ms > 1500).map(|o| (o.client.elapsed_ms, format!("conn{} {:?} nth{} {} stalled={} cap={} err={:?} sizes={}/{}", o.conn, o.front, o.nth, o.xfer.direction(), o.client.stalled, o.client.watchdog_cap, o.client.resp.error.as_ref().map(|e| e.0.clone()), o.xfer.req_size, o.xfer.resp_size))).collect();
+        slow.sort();
+        eprintln!("SLOW CELL {case}: {} ms, lanes {}, slow exchanges: {:#?}", t_cell.elapsed().as_millis(), plan.cfg.lanes, slow);
+    }
+    // overflow-checks are on for every crate of this build: kawa 0.6.8 `Store::consume` computes
+    // `amount - data.len() + index` (repr.rs:612), which is correct under the wrapping arithmetic
+    // of a release build but trips the check when a partial write ends inside an allocated header
+    // value. That kills the worker thread here and nowhere else: the cell says nothing about sozu.
+    if panics.iter().any(|p| p.location.contains("kawa-") && p.location.contains("storage/repr.rs:612")) {
+        rep.obs("cells_discarded/overflow_check_artifact_in_kawa_store_consume", 1);
+        rep.obs("transfers_in_discarded_cells", outcomes.len() as u64);
+        return Vec::new();
+    }
+    for p in panics {
+        if p.in_sozu() {
+            rep.violation(&p.signature(), &format!("sozu worker panicked while proxying bodies: {} at {}", p.message, p.location),
+                json!({"case": case, "seed": ctx.seed, "panic": p.message, "location": p.location, "cell": plan.cfg.json()}));
+        } else {
+            // the worker thread runs sozu and its dependencies only
+            let tail: String = p.location.rsplit("/registry/src/").next().unwrap_or(&p.location).splitn(2, '/').nth(1).unwrap_or(&p.location).to_owned();
+            let tail = tail.rsplitn(2, ':').nth(1).unwrap_or(&tail).to_owned();
+            rep.violation(&format!("worker_panic@{tail}"), &format!("sozu worker thread panicked in a dependency while proxying bodies: {} at {}", p.message, p.location),
+                json!({"case": case, "seed": ctx.seed, "panic": p.message, "location": p.location, "cell": plan.cfg.json()}));
+        }
+    }
+    let judge = Judge { ctx, plan: &plan, globals, rerun, killed_reported: Default::default() };
+    for o in &outcomes {
+        let judged = judge.judge(o, rep);
+        account(&plan, o, judged, globals, rep);
+    }
+    // what sozu's sockets went through in this cell (plain frontend and backend sockets share the
+    // hook kind session_tcp; the per-exchange accounting in `account` splits them where possible)
+    let wops = ["write", "writev"];
+    rep.obs("cells", 1);
+    rep.obs(if plan.cfg.tight { "cells_tight_buffers" } else { "cells_default_buffers" }, 1);
+    if plan.cfg.lanes > 1 {
+        rep.obs("cells_with_concurrent_client_connections", 1);
+    }
+    rep.obs("sozu_io/plain_write_wouldblock", sum_counters(&delta, &["session_tcp"], &wops, "wouldblock"));
+    rep.obs("sozu_io/plain_write_partial", sum_counters(&delta, &["session_tcp"], &wops, "partial"));
+    rep.obs("sozu_io/tls_write_wouldblock", sum_counters(&delta, &["rustls"], &wops, "wouldblock"));
+    rep.obs("sozu_io/tls_write_partial", sum_counters(&delta, &["rustls"], &wops, "partial"));
+    rep.obs("sozu_io/read_wouldblock", sum_counters(&delta, &["session_tcp", "rustls"], &["read"], "wouldblock"));
+    rep.obs("sozu_io/bytes_written", sum_counters(&delta, &["session_tcp", "rustls"], &wops, "bytes"));
+    if case < 2 && !rerun {
+        rep.sample(json!({"case": case, "cell": plan.cfg.json(), "sozu_io_delta": delta,
+            "connections": plan.conns.iter().take(3).map(|c| json!({"front": format!("{:?}", c.front), "prog": c.prog.describe(),
+                "xfers": c.xfers.iter().map(|x| x.json()).collect::<Vec<_>>()})).collect::<Vec<_>>()}));
+    }
+    outcomes
+}
+
+pub fn run(ctx: &Ctx) -> Report {
+    let mut rep = Report::new(
+        "exploration",
+        "cells = one sozu worker (tight: buffer_size 16393, small pool, shrunk socket buffers via knobs / default) + scripted H1 (and h2c) backends; per cell ~12 client connections (H1/TCP, H1/TLS, H2/TLS) with 1..8 keep-alive exchanges or 1..32 concurrent streams; each exchange draws direction (upload/download/both/early response), framings (Content-Length, chunked with boundary chunk sizes, extensions, trailers, close-delimited HTTP/1.0 and Connection: close, H2 DATA padded/empty/END_STREAM variants), boundary-biased sizes and an I/O program per socket; a case is one exchange, non-trivial when it was judged by the receiver-side oracles (not exempted), distinct = (pair, direction, framings, size buckets, I/O programs)",
+    );
+    rep.assume("loopback TCP: the kernel never reorders or corrupts; only segmentation, pacing and buffer sizes are provoked");
+    rep.assume("chunk extensions and H1 trailers need not be forwarded (docs are silent): only body bytes and clean termination are judged; what happened to trailers is counted");
+    rep.assume("an answer generated by sozu itself (no X-Msg header) is exempt here (C02 judges it); H1 early responses are judged on the response body only");
+    lab::raise_fd_limit();
+    if !wire::self_check() {
+        rep.broken("harness: fast keystream does not match common::rng::keystream_byte");
+        return rep;
+    }
+    let globals = Globals { io_programs: Mutex::new(HashSet::new()), stalls: Mutex::new(Vec::new()) };
+
+    if let Some(path) = &ctx.replay {
+        let v: Value = serde_json::from_str(&std::fs::read_to_string(path).unwrap_or_default()).unwrap_or(Value::Null);
+        let mut cases: Vec<(u64, Option<usize>)> = v["witnesses"].as_array().map(|a| {
+            a.iter().filter_map(|w| w["case"].as_u64().map(|c| (c, w["conn"].as_u64().map(|x| x as usize)))).collect()
+        }).unwrap_or_default();
+        cases.dedup();
+        for (c, _conn) in cases {
+            run_case(ctx, c, &globals, None, None, false, &mut rep);
+        }
+        finish_stalls(ctx, &globals, &mut rep);
+        return rep;
+    }
+
+    if let Some(c) = ctx.opt("only_case").and_then(|c| c.parse::<u64>().ok()) {
+        let only_conn = ctx.opt("only_conn").and_then(|c| c.parse::<usize>().ok());
+        let outs = run_case(ctx, c, &globals, only_conn, None, false, &mut rep);
+        for o in &outs {
+            eprintln!("conn {} nth {} {} : client={:?}\n    back={:?}", o.conn, o.nth, o.xfer.json(), o.client, o.back);
+        }
+        finish_stalls(ctx, &globals, &mut rep);
+        return rep;
+    }
+    let n = ctx.opt_u64("cells", ctx.tier.pick(48, 1400));
+    // cells take 10..40 s (deliberate pauses, watchdogs on the defects sozu has): stop starting them
+    // early enough for the run to end near the budget
+    let start_until = ctx.budget.mul_f64(ctx.tier.pick(0.4, 0.9));
+    par_cases(ctx, &mut rep, n, |i, r| {
+        if ctx.started.elapsed() > start_until {
+            r.obs("cells_not_started_soft_budget", 1);
+            return;
+        }
+        run_case(ctx, i, &globals, None, None, false, r);
+    });
+    finish_stalls(ctx, &globals, &mut rep);
+
+    rep.obs("distinct_io_programs", globals.io_programs.lock().unwrap().len() as u64);
+    rep.set("h2_stage", json!(if h2_available() { "enabled" } else { "peers::h2 not available: H1 pairings only" }));
+    let mut required: Vec<String> = vec![
+        "transfers_judged".into(),
+        "bytes_verified".into(),
+        "cells_tight_buffers".into(),
+        "cells_default_buffers".into(),
+        "executions_with_sozu_front_write_wouldblock".into(),
+        "executions_with_sozu_back_write_wouldblock".into(),
+        "executions_with_sozu_front_partial_write".into(),
+        "executions_with_sozu_back_partial_write".into(),
+        "keepalive_followup_requests".into(),
+        "backend_connection_reused_for_transfer".into(),
+    ];
+    for pair in ["h1-h1", "h1tls-h1"] {
+        for f in ["cl", "chunked"] {
+            required.push(format!("xfer/{pair}/upload/{f}"));
+        }
+        for f in ["cl", "chunked", "close10", "close11"] {
+            required.push(format!("xfer/{pair}/download/{f}"));
+        }
+        required.push(format!("ok/{pair}/upload"));
+        required.push(format!("ok/{pair}/download"));
+    }
+    for d in ["upload", "download", "both"] {
+        required.push(format!("direction/{d}"));
+    }
+    for s in ["0", "1", "16375", "16383", "16384", "16385", "16393", "32768", "65535", "65536", "65537", "bs-2", "bs-1", "bs+1", "bs+2", "2^n+-1"] {
+        required.push(format!("size/{s}"));
+    }
+    if h2_available() && ctx.opt("h2") != Some("off") {
+        for k in h2run::required_keys() {
+            required.push(k);
+        }
+    }
+    if ctx.opt("norequire").is_none() {
+        for k in &required {
+            rep.require(k);
+        }
+    }
     rep
+}
+
+/// stalled transfers are re-run alone (fresh worker, one connection, nothing else running): the
+/// first candidate of each signature; the others of a confirmed signature are the same failure
+fn finish_stalls(ctx: &Ctx, globals: &Globals, rep: &mut Report) {
+    let stalls: Vec<StallCandidate> = std::mem::take(&mut *globals.stalls.lock().unwrap());
+    let mut by_sig: BTreeMap<String, Vec<&StallCandidate>> = BTreeMap::new();
+    for s in &stalls {
+        by_sig.entry(s.signature.clone()).or_default().push(s);
+    }
+    let max_reruns = ctx.opt_u64("stall_reruns", ctx.tier.pick(16, 48)) as usize;
+    let t0 = Instant::now();
+    // the re-runs are independent cells (own worker, own loopback address, one connection each);
+    // a handful of them run side by side, far from loading the machine
+    let results: Vec<(String, usize, Option<bool>, Report)> = std::thread::scope(|sc| {
+        let mut handles = Vec::new();
+        for (n, (sig, list)) in by_sig.iter().enumerate() {
+            let sig = sig.clone();
+            let list: Vec<&StallCandidate> = list.clone();
+            let base = rep.fork();
+            handles.push(sc.spawn(move || {
+                if n >= max_reruns {
+                    return (sig, list.len(), None, base);
+                }
+                let mut kept = base.fork();
+                let mut confirmed = false;
+                for s in list.iter().take(2) {
+                    let mut sub = base.fork();
+                    let outcomes = run_case(ctx, s.case, globals, Some(s.conn), Some(s.key), true, &mut sub);
+                    let again = outcomes.iter().any(|o| o.client.stalled && (o.xfer.key == s.key || o.client.conn_level));
+                    // only verdicts of the re-run are kept, not its coverage counters
+                    for v in sub.violations {
+                        kept.violation(&v.signature, &v.what, v.witness);
+                    }
+                    if again {
+                        confirmed = true;
+                        break;
+                    }
+                    let _ = &s.witness;
+                }
+                (sig, list.len(), Some(confirmed), kept)
+            }));
+        }
+        handles.into_iter().map(|h| h.join().expect("rerun thread")).collect()
+    });
+    for (sig, n, verdict, kept) in results {
+        for v in kept.violations {
+            rep.violation(&v.signature, &v.what, v.witness);
+        }
+        match verdict {
+            None => {
+                for _ in 0..n {
+                    rep.inconclusive("watchdog: stalled transfer not re-run (re-run budget of this run exhausted)");
+                }
+            }
+            Some(true) => {
+                rep.obs("stalls_reproduced_in_isolation", 1);
+                rep.obs("stalls_under_load_with_a_signature_confirmed_in_isolation", n as u64);
+            }
+            Some(false) => {
+                rep.obs("stalls_not_reproduced_in_isolation", 1);
+                for _ in 0..n {
+                    rep.inconclusive(&format!("watchdog: transfer stalled under load but completed when re-run alone ({sig})"));
+                }
+            }
+        }
+    }
+    rep.obs("stall_rerun_phase_ms", t0.elapsed().as_millis() as u64);
 }
